@@ -19,13 +19,15 @@ def generate(repo):
         raise TranslateError(path + ': make_general zero literal is not a string')
     out.append('Definition lit_make_general_zero : string := %s.' % coq_string(zero))
 
-    # uncontract_segmented: newsh['coefficients'] = [["<literal>"] * nam]
+    # uncontract_segmented: newsh['coefficients'] = [["<literal>"] for _ in new_am]      (before 2a196434: [["<literal>"] * nam])
     fn = find_func(tree, 'uncontract_segmented', path)
     lits = []
     for n in ast.walk(fn):
         if isinstance(n, ast.BinOp) and isinstance(n.op, ast.Mult) and isinstance(n.left, ast.List) \
                 and len(n.left.elts) == 1 and isinstance(n.left.elts[0], ast.Constant):
             lits.append(n.left.elts[0].value)
+        if isinstance(n, ast.ListComp) and isinstance(n.elt, ast.List) and len(n.elt.elts) == 1 and isinstance(n.elt.elts[0], ast.Constant):
+            lits.append(n.elt.elts[0].value)
     if len(lits) != 1 or not isinstance(lits[0], str):
         raise TranslateError(path + ': uncontract_segmented unit literal not found uniquely: %r' % lits)
     out.append('Definition lit_unc_seg_one : string := %s.' % coq_string(lits[0]))
